@@ -45,6 +45,9 @@ def mk(kinds, marker):
             lines.append("open('u%d.txt')" % i)
         elif k == 'ff':
             lines.append("f%d = 1 \x0c+ 1" % i)
+        elif k == 'deeplib':
+            # a failure raised many library frames below the student's line (pure-Python JSON encoder walking a nested list)
+            lines.append("import json; json.dumps([[[[[[[type('u%d', (), {})()]]]]]]], indent=1)" % i)
         elif k == 'func':
             # a function whose failure only happens when instructor code calls it (the failing frame is a line of the
             # section although the code the sandbox was asked to run is the instructor's call)
@@ -185,8 +188,8 @@ def one_pass(ctx, src, independent, pat, order, ending, case, tag, entry='separa
                               'where': where, 'mode': mode_name}, case=case, k=k, got=ln, want=exp)
                 continue
             if f.category == 'runtime' and f.label != 'name_error':
-                m = re.search(r"'(u\d+)\.txt'", str(f.fields.get('exception', '')) + f.message)
-                name = m.group(1) if m else None
+                m = re.search(r"'(u\d+)\.txt'|Object of type (u\d+) is not", str(f.fields.get('exception', '')) + f.message)
+                name = (m.group(1) or m.group(2)) if m else None
             if f.label in ('initialization_problem', 'possible_initialization_problem', 'name_error', 'unused_variable') or \
                     (f.category == 'runtime' and name):
                 if f.label == 'name_error':
@@ -289,7 +292,7 @@ def make_body(max_lines, orders, second, KINDS=KINDS, endings_phase=False):
         canon = repr(case)
         ctx.observe(canon)
         ctx.set_sample(case)
-        if 'marker' in kinds and any(k in ('name', 'syntax', 'same', 'samesyn') for k in kinds[kinds.index('marker'):]):
+        if 'marker' in kinds and any(k in ('name', 'syntax', 'same', 'samesyn', 'lib', 'deeplib', 'func') for k in kinds[kinds.index('marker'):]):
             ctx.mark_nontrivial(canon)
         cmds.clear_report()
         if abandoned_before:
@@ -411,6 +414,8 @@ def phases(tier):
                       describe='files of <=5 lines whose sections can be textually identical (same failing line in each)'),
                 Phase('called-functions', make_body(4, [TOOLS], False, ['clean', 'marker', 'func', 'name']), setup=_setup, chunk=300,
                       describe='files of <=4 lines whose sections define functions that fail when the instructor calls them'),
+                Phase('deep-library-failures', make_body(4, [TOOLS], False, ['clean', 'marker', 'deeplib', 'lib']), setup=_setup, chunk=300,
+                      describe='files of <=4 lines with failures raised 1 or 12 library frames below the student line'),
                 Phase('own-report', body_own_report, setup=_setup, chunk=300,
                       describe='files of <=3 lines walked on a caller-owned Report (report= on every call); global report untouched'),
                 Phase('endings', make_body(3, [TOOLS], False, ['clean', 'name', 'marker'], endings_phase=True), setup=_setup, chunk=300,
